@@ -119,6 +119,10 @@ pub fn cases() -> Vec<Value> {
 }
 
 pub fn run_case_json(c: &Value) -> (Vec<F>, String) {
+    if c.get("script_paths").is_some() {
+        let (fs, n) = run_scripts();
+        return (fs, format!("scripts:{}", n));
+    }
     let order: Vec<usize> = serde_json::from_value(c["order"].clone()).unwrap();
     run_case(c["route"].as_str().unwrap(), c["target"].as_u64().unwrap() as usize, c["with_head"].as_bool().unwrap(), &order, c["sse"].as_bool().unwrap(), c["omit_ctx"].as_bool().unwrap_or(false))
 }
@@ -128,4 +132,79 @@ pub fn worker() {
         let (fs, outcome) = run_case_json(&job);
         json!({"findings": fs.iter().map(|f| json!({"kind": f.kind, "msg": f.msg, "case": f.case})).collect::<Vec<_>>(), "outcome": outcome})
     });
+}
+
+/// Script-level paths: `.cat` / `.head` inside a handler and inside a command running for context
+/// B see only B unless the script names another context explicitly; a handler in B is not
+/// triggered by A's frames and its output (even with `--context A`) lands in B.
+pub fn run_scripts() -> (Vec<F>, u64) {
+    use crate::e5::{meta_str, Serve, World};
+    let mut fs = vec![];
+    let mut evals = 0u64;
+    for (first, second) in [(0usize, 1usize), (1, 0)] {
+        let w = World::start(Serve { handlers: true, commands: true, ..Default::default() });
+        let ctxs = [w.ctx_a, w.ctx_b];
+        let (a, b) = (ctxs[first], ctxs[second]);
+        let case = json!({"script_paths": true, "other_ctx_is_older": first == 0});
+        w.append_c("a", a, Some("in-a-1"), None);
+        w.append_c("a", b, Some("in-b-1"), None);
+        w.append_c("a", a, Some("in-a-2"), None);
+        w.append_c("a", xs::store::ZERO_CONTEXT, Some("in-zero"), None);
+        let body = format!(
+            "{{cat: (.cat | get context_id | uniq), n: (.cat | length), last: (.cat --last-id (.cat | first | get id) | get context_id | uniq), head: (.head a | get context_id), head_other: (.head a --context {} | get context_id), head_none: ((.head nosuch) == null)}}",
+            a
+        );
+        // handler in B
+        let reg = w.append_c("iso.register", b, Some(&format!("{{run: {{|frame| if $frame.topic != \"go\" {{ return }}; \"x\" | .append leak --context {}; {}}}}}", a, body)), None);
+        w.wait(|f| f.topic == "iso.registered" && meta_str(f, "handler_id") == Some(reg.id.to_string()), 20.0);
+        // a frame in A must not trigger it
+        let go_a = w.append_c("go", a, None, None);
+        w.append_c("a", b, Some("in-b-2"), None);
+        let go_b = w.append_c("go", b, None, None);
+        let out = w.wait(|f| f.topic == "iso.out" && meta_str(f, "frame_id") == Some(go_b.id.to_string()), 20.0);
+        // command defined in B
+        w.append_c("isoc.define", b, Some(&format!("{{run: {{|frame| {}}}}}", body)), None);
+        let call = w.append_c("isoc.call", b, None, None);
+        let cout = w.wait(|f| f.topic == "isoc.recv" && meta_str(f, "frame_id") == Some(call.id.to_string()), 20.0);
+        for (via, fr) in [("handler", out), ("command", cout)] {
+            evals += 1;
+            let Some(fr) = fr else {
+                let err = w.snapshot().into_iter().rev().find(|f| f.topic.ends_with(".error") || f.topic.ends_with(".unregistered")).and_then(|f| f.meta);
+                fs.push(F { kind: "c06.script.no_answer".into(), msg: format!("{} script in context B gave no answer: {:?}", via, err), case: case.clone() });
+                continue;
+            };
+            let v: Value = w.content(&fr).and_then(|c| serde_json::from_str(&c).ok()).unwrap_or(Value::Null);
+            let bs = b.to_string();
+            let as_ = a.to_string();
+            let only_b = |x: &Value| x.as_array().map(|arr| arr.iter().all(|c| c.as_str() == Some(bs.as_str())) && !arr.is_empty()).unwrap_or(false);
+            if !only_b(&v["cat"]) || v["n"].as_i64().map(|n| n < 2).unwrap_or(true) {
+                fs.push(F { kind: "c06.script.cat".into(), msg: format!(".cat inside a {} of context B returned contexts {} ({} frames); B is {}", via, v["cat"], v["n"], bs), case: case.clone() });
+            }
+            if !only_b(&v["last"]) {
+                fs.push(F { kind: "c06.script.cat".into(), msg: format!(".cat --last-id inside a {} of context B returned contexts {}", via, v["last"]), case: case.clone() });
+            }
+            if v["head"].as_str() != Some(bs.as_str()) {
+                fs.push(F { kind: "c06.script.head".into(), msg: format!(".head a inside a {} of context B returned a frame of context {}", via, v["head"]), case: case.clone() });
+            }
+            if v["head_other"].as_str() != Some(as_.as_str()) {
+                fs.push(F { kind: "c06.script.head_explicit".into(), msg: format!(".head a --context A inside a {} of context B returned context {}", via, v["head_other"]), case: case.clone() });
+            }
+            if v["head_none"].as_bool() != Some(true) {
+                fs.push(F { kind: "c06.script.head".into(), msg: format!(".head of an unused topic inside a {} of context B returned something: {}", via, v), case: case.clone() });
+            }
+        }
+        std::thread::sleep(std::time::Duration::from_millis(40));
+        let log = w.snapshot();
+        if log.iter().any(|f| f.topic == "iso.out" && meta_str(f, "frame_id") == Some(go_a.id.to_string())) {
+            fs.push(F { kind: "c06.script.dispatch".into(), msg: "a frame of context A triggered the handler registered in context B".into(), case: case.clone() });
+        }
+        for f in log.iter().filter(|f| f.topic == "leak" || f.topic == "iso.out") {
+            if f.context_id != b {
+                fs.push(F { kind: "c06.script.output".into(), msg: format!("handler output {:?} landed in context {} instead of the handler's", f.topic, f.context_id), case: case.clone() });
+            }
+        }
+        evals += 2;
+        w.stop();
+    }
+    (fs, evals)
 }
